@@ -284,7 +284,8 @@ def save_replay(pid, seed, n, payload):
 # table validation of pure operators (Cases.tla)
 
 def harness_path(build_dir, name):
-    return os.path.join(os.path.dirname(build_dir), 'harness', name)
+    import hashlib
+    return os.path.join(os.path.dirname(build_dir), 'harness-' + hashlib.md5(ROOT.encode()).hexdigest()[:8], name)
 
 
 def run_harness(build_dir, mode, lines, timeout=600):
